@@ -553,6 +553,26 @@ impl<'a> VisitMut for HofPass<'a> {
                 }
             }
         }
+        // R-HOF (HashMap): M.entry(K).or_insert_with(|| V)  ==>  M.hof_entry_or_insert_with(K, V)
+        // (V is evaluated eagerly: sound only for an effect-free constructor expression, which is checked)
+        if let Expr::MethodCall(oi) = e {
+            if oi.method == "or_insert_with" && oi.args.len() == 1 {
+                if let (Expr::MethodCall(en), Expr::Closure(cl)) = (&*oi.receiver, &oi.args[0]) {
+                    if en.method == "entry" && en.args.len() == 1 && cl.inputs.is_empty() {
+                        let body = tok(&cl.body);
+                        if body.contains("Tracked(w)") || body.contains(".next(") || body.contains("?") {
+                            die("unsupported construct: or_insert_with closure is not an effect-free constructor");
+                        }
+                        let m = &en.receiver;
+                        let k = &en.args[0];
+                        let v = &cl.body;
+                        let new: Expr = parse_quote! { #m.hof_entry_or_insert_with(#k, #v) };
+                        *e = new;
+                        self.log.push("R-HOF entry(k).or_insert_with(|| ctor) unfolded (constructor evaluated eagerly)".into());
+                    }
+                }
+            }
+        }
         // R-HOF (dashmap): M.entry(K).and_modify(|x| B).or_insert(V)
         if let Expr::MethodCall(oi) = e {
             if oi.method == "or_insert" && oi.args.len() == 1 {
@@ -1692,7 +1712,14 @@ impl Unit {
         }
         block.stmts.insert(0, parse_quote! { __fjx_contract!(); });
 
-        let vis = &found.vis;
+        let vis: syn::Visibility = match &found.vis {
+            syn::Visibility::Restricted(_) => {
+                log.push("R-VIS restricted visibility spelled `pub` (the unit is a single module)".into());
+                parse_quote! { pub }
+            }
+            v => v.clone(),
+        };
+        let vis = &vis;
         let fn_ts = if spec.spec_only {
             quote! { #[verifier::external_body] #vis #sig #block }
         } else {
